@@ -47,9 +47,31 @@ Definition umul (m : mmode) (a b : Z) : outcome Z :=
   else match m with Release => Ok ((a * b) mod USZ) | Checked => Panic end.
 
 Definition zlen {A} (l : list A) : Z := Z.of_nat (length l).
-(* slice::get; the range test comes first so that no huge unary number is ever built *)
+(* slice::get.  Written with a Z counter so that no unary number proportional to the index is built
+   (an index near 2^64 simply runs off the end of the list). *)
+Fixpoint zget_aux {A} (l : list A) (i : Z) : option A :=
+  match l with
+  | [] => None
+  | x :: r => if i =? 0 then Some x else zget_aux r (i - 1)
+  end.
 Definition zget {A} (l : list A) (i : Z) : option A :=
-  if (i <? 0) || (zlen l <=? i) then None else nth_error l (Z.to_nat i).
+  if i <? 0 then None else zget_aux l i.
+
+(* dst[start .. start + src.len()].clone_from_slice(src); None = range out of bounds (panic) *)
+Fixpoint overwrite {A} (dst src : list A) : option (list A) :=
+  match src with
+  | [] => Some dst
+  | s :: sr => match dst with
+               | [] => None
+               | _ :: dr => option_map (cons s) (overwrite dr sr)
+               end
+  end.
+Fixpoint write_at {A} (dst : list A) (start : Z) (src : list A) : option (list A) :=
+  if start =? 0 then overwrite dst src
+  else match dst with
+       | [] => None
+       | x :: r => option_map (cons x) (write_at r (start - 1) src)
+       end.
 
 Fixpoint zrange (a : Z) (c : nat) : list Z :=
   match c with O => [] | S c' => a :: zrange (a + 1) c' end.
@@ -96,9 +118,8 @@ Section Merkle.
   (* ------------------------------------------------------------------ MerkleTree construction *)
   (* nodes[start .. start + src.len()].clone_from_slice(src) *)
   Definition write_slice (nodes : list D) (start : Z) (src : list D) : outcome (list D) :=
-    if (0 <=? start) && (start + zlen src <=? zlen nodes)
-    then Ok (firstn (Z.to_nat start) nodes ++ src ++ skipn (Z.to_nat start + length src) nodes)
-    else Panic.
+    if start <? 0 then Panic
+    else match write_at nodes start src with Some r => Ok r | None => Panic end.
 
   Definition hash_children (nodes : list D) (j : Z) : outcome D :=
     match zget nodes (j * 2), zget nodes (j * 2 + 1) with
